@@ -368,6 +368,60 @@ func genLink(g *vh.Gen) string {
 	return "<" + el + g.Pick(" ", " ", "\n", "/") + attr + "=" + q + u + q + extra + g.Pick(">", ">", "/>", " >") + "x</" + el + ">"
 }
 
+// genLong builds a document holding ONE very long token of about n bytes (kind selects which
+// token kind). Total size never mattered to the sanitiser; a single huge token exercises the
+// tokenizer's buffering (sanitising must never fail: C18's last clause). nl > 0 inserts a line
+// break every nl bytes (mail bodies), which does not end any of these tokens.
+func genLong(g *vh.Gen, kind, n, nl int) string {
+	fill := func(unit string, n int) string {
+		var sb strings.Builder
+		for sb.Len() < n {
+			sb.WriteString(unit)
+			if nl > 0 && sb.Len()%nl < len(unit) {
+				sb.WriteString("\n")
+			}
+		}
+		return sb.String()[:n]
+	}
+	switch kind % 10 {
+	case 0: // text run
+		return "<p>" + fill("lorem ipsum ", n) + "</p>"
+	case 1: // inline image in an attribute
+		return "<p>x</p><img alt=\"i\" src=\"data:image/png;base64," + fill("iVBORw0KGgoAAAANSUhEUgAA", n) + "\"><p>y</p>"
+	case 2: // raw text of a style element
+		return "<style>" + fill("p{color:red}", n) + "</style><p>x</p>"
+	case 3: // comment
+		return "<p>x</p><!--" + fill("c ", n) + "--><p>y</p>"
+	case 4: // unterminated tag running to the end of the input
+		return "<p>x</p><p title=\"" + fill("t", n)
+	case 5: // long style attribute, many declarations
+		return "<div style=\"" + fill("color:red;position:fixed;WIDTH:1px;", n) + "\">x</div>"
+	case 6: // start tag with very many attributes
+		return "<td " + fill("width=\"1\" onclick=\"x\" ", n) + ">x</td>"
+	case 7: // raw text of textarea / title / script
+		el := g.Pick("textarea", "title", "script", "xmp", "noscript")
+		return "<" + el + ">" + fill("<b>x</b> ", n) + "</" + el + "><p>y</p>"
+	case 8: // text with entities and markup characters only
+		return fill("&amp;&lt;&#60;&quot;> ", n)
+	default: // end tag with junk, doctype, CDATA
+		return g.Pick("</p "+fill("a ", n)+">", "<!DOCTYPE "+fill("x", n)+">", "<![CDATA["+fill("x", n)+"]]>", "<?"+fill("x", n)+">") + "<p>y</p>"
+	}
+}
+
+// sizes around the 64 KiB mark of a single token, plus a few much larger ones
+func longSize(g *vh.Gen, i int) int {
+	switch i % 4 {
+	case 0:
+		return 65536 - 12 + g.Intn(24)
+	case 1:
+		return 65536 + g.Intn(64)
+	case 2:
+		return 32768 - 8 + g.Intn(16)
+	default:
+		return 150000 + g.Intn(250000)
+	}
+}
+
 var htmlAlphabet = []string{"<", ">", "<", ">", "/", "=", "\"", "'", " ", "script", "style", "p", "a", "on", "click", "href", "javascript:", "&", ";", "#", "x", "!--", "--",
 	"\x00", "\n", "img", "src", "svg", "iframe", "form", "&lt;", "&#60", "alert(1)", "?", "[CDATA[", "]]", "textarea", "title", "color:red", "top:0", "\xff", "`"}
 
@@ -450,6 +504,14 @@ func gen(g *vh.Gen) {
 			s = genPlain(g)
 		}
 		g.Emit("text", vh.HS(s))
+	}
+	// one very long token per document: every token kind, sizes around 64 KiB and a few larger
+	for i := 0; i < g.N(12, 240); i++ {
+		g.Emit("html", vh.HS(genLong(g, i, longSize(g, i+i/10), 0)))
+	}
+	for i := 0; i < g.N(4, 60); i++ {
+		k := []int{0, 1, 5, 3, 7, 8, 2, 6, 4, 9}[i%10]
+		g.Emit("msg", vh.HS(validUTF8(genLong(g, k, longSize(g, i), 76))), vh.HS(validUTF8(genLong(g, 8, longSize(g, i+1), 76))))
 	}
 	for i := 0; i < g.N(1000, 50000); i++ {
 		var h string
